@@ -8,7 +8,7 @@ code->spec : each execution is replayed through the transducers (conformance) an
 from flow import Run, replay_file
 
 PROP = "C03"
-FAULTS = ["drop", "dup", "swap"]
+FAULTS = ["drop", "dup", "swap", "hold"]
 
 
 def run(tier: str, keep: bool = False) -> int:
@@ -27,8 +27,11 @@ def run(tier: str, keep: bool = False) -> int:
         r.model("canonK3", "FamAck(4, {0, 1, 3})", K=3, faults=FAULTS, invariants=inv, timeout=2400)
     # the code: all K <= 1 schedules (quick) / K <= 2 (thorough) under canonical pacing, random pacing by simulation
     props = ["C01", "C03", "C06", "C10", "C15"]
-    r.schedules("schedK1", fam1, props, K=1, faults=FAULTS)
-    r.schedules("schedK2", fam2, props, K=2, faults=FAULTS, limit=600 if q else None)
+    r.schedules("schedK1", fam1, props, K=1, faults=FAULTS, limit=1500 if q else None)
+    r.schedules("schedK2", fam2, props, K=2, faults=["drop", "dup", "swap"], limit=600 if q else None)
+    if not q:
+        # one PDU delayed / overtaken (hold ... release) combined with a loss: all schedules of one configuration family
+        r.schedules("schedK2hold", "{c \\in FamAck(3, {3}) : ~c.closure}", props, K=2, faults=["drop", "hold"], limit=40000, timeout=2400)
     r.schedules("simFree", "FamAck(3, {1, 3})" if q else "FamAck(4, {1, 3, 5})", props, K=2, faults=FAULTS + ["delay"],
                 pacing="free", ticks=[400, 1000], simulate=dict(num=300 if q else 6000, depth=100), maxhist=100, workers=4)
     r.judge()
